@@ -113,6 +113,13 @@ PINNED = [
     ("<define>", "switch", "definitions first"),
     ("condition", "repeat", "documented: condition is tested once, outside "
                             "the repetition"),
+    ("case", "condition", "guard order of the reference tree: a matched "
+                          "case cancels its siblings even if the element's "
+                          "own condition is false (docs list case last; the "
+                          "implementation's order is what existing templates "
+                          "render with -- 'one fixed order')"),
+    ("repeat", "switch", "guard order of the reference tree: the element's "
+                         "own switch is evaluated per repetition"),
     ("case", "<inner>", "guards enclose content/replace/element"),
     ("condition", "<inner>", "guards enclose content/replace/element"),
     ("repeat", "<inner>", "guards enclose content/replace/element"),
@@ -422,6 +429,20 @@ def _skeletons(repo, rep):
                   "the per-iteration binding of the loop variable(s) is the "
                   "first statement of the loop body", construct="repeat-bind",
                   where=L.where(f), detail=A.show(first, limit=2)[:100])
+        # evaluation of the repeat expression precedes the pre-binding of
+        # the loop names (the expression may mention an outer variable of
+        # the same name)
+        ev0 = lin.index(lambda it: isinstance(it, A.Eval))
+        pre = [j for j in range(fors[0])
+               if isinstance(lin.item(j), A.Py)
+               and lin.item(j).kind == "Assign"
+               and "load('None')" in A.show(lin.item(j).f.get("value"))
+               and "node.names" in A.show(lin.item(j).f.get("targets"),
+                                          limit=8)]
+        rep.check(ev0 >= 0 and pre and ev0 < min(pre), "R01.4", f.qualname,
+                  "the repeat expression is evaluated before the loop names "
+                  "are touched", construct="repeat-eval-first",
+                  where=L.where(f), detail="eval@%s prebind@%s" % (ev0, pre))
         child = [i for i in rows if isinstance(lin.item(i), A.Child)]
         rep.check(bool(child) and child[0] > rows[0], "R01.4", f.qualname,
                   "the repeated node is emitted inside the loop after the "
